@@ -69,8 +69,9 @@ class AcctWorld(BufWorld):
                 self.check_res(r, step=step)
 
     def step(self, s):
+        was_dead = getattr(self, "dead", False)
         done = super().step(s)
-        if done is not False:
+        if done is not False or (getattr(self, "dead", False) and not was_dead):
             self._check_acct(s)
         return done
 
@@ -100,12 +101,24 @@ class AcctWorld(BufWorld):
                 self.cap_stack.append(None)
         return done
 
+    def cap_after_unwind(self):
+        """Capacity once every capacity context has been left: the bottom of the model's stack."""
+        cap = self.cap
+        for old in reversed(self.cap_stack):
+            if old is not None:
+                cap = old
+        return cap
+
     def _s_exit(self, s):
         if not self.stack:
+            return False
+        if getattr(self, "dead", False):
             return False
         kind = self.stack[-1][0]
         before = {r: self.res_buffered(r) for r in range(len(self.res))}
         done = super()._s_exit(s)
+        if getattr(self, "dead", False):
+            return done
         after = {r: self.res_buffered(r) for r in range(len(self.res))}
         for r in before:
             if before[r] and not after[r]:
@@ -155,6 +168,16 @@ class AcctWorld(BufWorld):
         self.alts = alts
 
     def _check_acct(self, step):
+        if getattr(self, "dead", False):
+            # after a reported I/O failure of a flush only the bookkeeping is judged
+            if self.cls is not None:
+                if self.cls.get_current_buffer_size() != 0:
+                    raise Mismatch("size_nonzero_after_failed_flush_and_exit", step=step,
+                                   size=self.cls.get_current_buffer_size())
+                if self.cls.get_buffer_capacity() != self.cap_after_unwind():
+                    raise Mismatch("capacity_not_restored_after_failed_flush", step=step,
+                                   got=self.cls.get_buffer_capacity(), expected=self.cap_after_unwind())
+            return
         alts = getattr(self, "alts", None)
         self.alts = None
         if alts and self.cls is not None:
